@@ -25,6 +25,14 @@ CLAIMED = {
     'C05': dict(ref='5 (C05)', tech=TECH, note=NOTE + ' Callee summaries (restriction halves exactly the pattern directions; residual/smoothing do not touch cycling state) are assumed here and discharged under C04/C01.',
                 text='Proof over all paths of _current_sc_dir/_current_lr_dir, _max_level (loop invariant with the spec function H), parameter '
                      'set-up, and multigrid (recursion invariant, V/W/F child-call structure, one generic fine-grid cycle): unbounded in shape, level and limits.'),
+    'C09': dict(ref='5 (C09)', tech=TECH, note=NOTE + ' The linear SciPy interpolator is an assumed contract (bounded concrete check); reciprocity follows as a paper lemma from C02 symmetry and the transposes proved here; magnetic point source (discretize) and cubic interpolation not covered.',
+                text='Proof that point_source locates the unique bracketing cell and stores the product of the 1-D hat weights (all other cells zero) for a symbolic grid and position; that _edge_curl_factor is the '
+                     'volume-weighted discrete Faraday law using the C02 curl stencil; that get_receiver combines the per-component interpolants with the same rotation() factors and masks exactly the outermost cells; '
+                     'that get_magnetic_field wires them with zeta = V/(mu_r s mu0) and writes nothing of its inputs (incl. the cached cell volumes of the grid).'),
+    'C10': dict(ref='5 (C10)', tech=TECH, note=NOTE + ' The partition lemma (clipped length fractions of a segment sum to one over the cells) is not proved; dipole/point conversions and the square loop are covered by a bounded concrete check only.',
+                text='Proof that the eight point-source weights of a component sum to one in every branch and are non-negative; that the cell body of _dipole_vector distributes exactly the clipped length fraction '
+                     'over the four edges per component of that cell with non-negative weights and writes nothing else; that every consecutive electrode pair of a wire is discretised; that get_source_field scales the vector by '
+                     'strength and -s mu0 and dispatches on the source type; rotation is the documented unit direction.'),
     'C12': dict(ref='5 (C12)', tech=TECH + '; provenance (taint) tags on array storages in the control executor',
                 note=NOTE + ' Numerical callees are summarised by how they propagate provenance; one source / one frequency; in-memory execution; process_map order is C11.',
                 text='Proof that every public operation of Simulation (compute, misfit, gradient, jvec, jtvec, get_efield, clean x3, model update + clean, to_dict) re-establishes the '
